@@ -208,6 +208,15 @@ func vrtTier() int {
 	}
 	return 0
 }
+
+// tq picks a bound by tier: q in the quick tier, t in the thorough tier.
+func tq(q, t int) int {
+	if vrtTier() == 0 {
+		return q
+	}
+	return t
+}
+
 func vrtEventCount(kind string) int { return 0 }
 func vrtUntouched(v any) bool       { return true }
 
